@@ -187,6 +187,61 @@ theorem includedChecks_iff (o : Opts) (h1 : o.skipValidation = false) (t : Val) 
 theorem included_violation_rejected (o : Opts) (h1 : o.skipValidation = false) (t : Val) (hbad : ¬ ValidTree t) :
     includedChecks o t ≠ .ok := fun h => hbad ((includedChecks_iff o h1 t).mp h)
 
+/-! ## a load with included projects -/
+
+def twoSources' : Val := .map [("secrets", .map [("s", .map [("file", .str "f"), ("environment", .str "E")])])]
+
+theorem incFail_none (o : Opts) (i : Val) : incFail o i = none ↔ includedChecks o i = .ok := by
+  unfold incFail
+  cases includedChecks o i <;> simp
+
+theorem incFail_some_not_ok (o : Opts) (i : Val) (out : Out) (h : incFail o i = some out) : ∀ p', out ≠ .ok p' := by
+  unfold incFail at h
+  cases hc : includedChecks o i <;> rw [hc] at h <;> simp at h <;> subst h <;> intro p' h' <;> cases h'
+
+theorem findSome_included_none (o : Opts) (incs : List Val) :
+    incs.findSome? (incFail o) = none ↔ ∀ i ∈ incs, includedChecks o i = .ok := by
+  rw [List.findSome?_eq_none_iff]
+  exact forall_congr' fun i => imp_congr_right fun _ => incFail_none o i
+
+/-- **accepted ⇔ every included project is structurally valid on its own, the merge result is valid, and the project is
+consistent** (both checks on) -/
+theorem loadWithIncludes_ok_iff (o : Opts) (ho : ChecksOn o) (incs : List Val) (t : Val) (p : Proj) (hnd : p.enabled.Nodup) :
+    (∃ p', loadWithIncludes o incs t p = .ok p') ↔ (∀ i ∈ incs, ValidTree i) ∧ ValidTree t ∧ ConsistentFull p := by
+  unfold loadWithIncludes
+  constructor
+  · rintro ⟨p', h⟩
+    cases hf : incs.findSome? (incFail o) with
+    | some out =>
+      rw [hf] at h
+      obtain ⟨i, -, hi⟩ := List.exists_of_findSome?_eq_some hf
+      exact absurd h (incFail_some_not_ok o i out hi p')
+    | none =>
+      rw [hf] at h
+      have hall := (findSome_included_none o incs).mp hf
+      exact ⟨fun i hi => (includedChecks_iff o ho.1 i).mp (hall i hi), (mainChecks_ok_iff o ho t p hnd).mp ⟨p', h⟩⟩
+  · rintro ⟨hi, hv, hc⟩
+    rw [(findSome_included_none o incs).mpr fun i h => (includedChecks_iff o ho.1 i).mpr (hi i h)]
+    exact (mainChecks_ok_iff o ho t p hnd).mpr ⟨hv, hc⟩
+
+/-- **a structural violation inside an included project cannot be repaired by the including project**: whatever the
+merge result `t` looks like (an override of the including project may have removed the offending attribute with
+`!reset`) and whatever the project, the load fails -/
+theorem included_violation_not_repairable (o : Opts) (h1 : o.skipValidation = false) (incs : List Val) (i : Val)
+    (hi : i ∈ incs) (hbad : ¬ ValidTree i) (t : Val) (p p' : Proj) : loadWithIncludes o incs t p ≠ .ok p' := by
+  intro h
+  unfold loadWithIncludes at h
+  cases hf : incs.findSome? (incFail o) with
+  | some out =>
+    rw [hf] at h
+    obtain ⟨j, -, hj⟩ := List.exists_of_findSome?_eq_some hf
+    exact absurd h (incFail_some_not_ok o j out hj p')
+  | none =>
+    exact included_violation_rejected o h1 i hbad ((findSome_included_none o incs).mp hf i hi)
+
+/-- without included projects it is the main checks -/
+theorem loadWithIncludes_nil (o : Opts) (t : Val) (p : Proj) : loadWithIncludes o [] t p = mainChecks o t p := rfl
+
 /-! ## outcome classes (what the stream `c10.glue` compares with whole loads) -/
 
 def vcls : VOut → String
@@ -210,7 +265,60 @@ theorem combine_ok_iff (o : Opts) (v c : String) :
   cases h1 : o.skipValidation <;> cases h2 : o.skipConsistencyCheck <;> by_cases hv : v = "ok" <;> by_cases hc : c = "ok" <;>
     simp [hv, hc]
 
+/-- the class of a load with included projects, from the classes of the stages taken alone -/
+theorem incFail_eq (o : Opts) (i : Val) :
+    incFail o i = if o.skipValidation then none else
+      match validate i with
+      | .ok => none
+      | .err c => some (Out.structural c)
+      | .panic s => some (Out.panic s) := by
+  unfold incFail includedChecks structuralStage
+  rw [(copies_keep_structural_drop_consistency o).1]
+  cases o.skipValidation <;> rfl
+
+theorem combineIncl_cons (o : Opts) (x : String) (xs : List String) (v c : String) :
+    combineIncl o (x :: xs) v c =
+      if (!(includeOpts o).skipValidation && x != "ok") = true then x else combineIncl o xs v c := by
+  unfold combineIncl
+  rw [List.find?_cons]
+  cases h : (!(includeOpts o).skipValidation && x != "ok") <;> simp
+
+theorem loadWithIncludes_cons (o : Opts) (i : Val) (r : List Val) (t : Val) (p : Proj) :
+    loadWithIncludes o (i :: r) t p = match incFail o i with
+      | some out => out
+      | none => loadWithIncludes o r t p := by
+  unfold loadWithIncludes
+  rw [List.findSome?_cons]
+  cases incFail o i <;> rfl
+
+theorem loadWithIncludes_cls (o : Opts) (incs : List Val) (t : Val) (p : Proj) :
+    (loadWithIncludes o incs t p).cls =
+      combineIncl o (incs.map fun i => vcls (validate i)) (vcls (validate t)) (ccls (checkConsistency p)) := by
+  induction incs with
+  | nil => exact mainChecks_cls o t p
+  | cons i r ih =>
+    rw [loadWithIncludes_cons, List.map_cons, combineIncl_cons, incFail_eq, (copies_keep_structural_drop_consistency o).1]
+    cases h1 : o.skipValidation
+    · cases hv : validate i with
+      | ok =>
+        have : (!false && vcls VOut.ok != "ok") = false := by decide
+        rw [this]; exact ih
+      | err c =>
+        have : (!false && vcls (VOut.err c) != "ok") = true := by simp [vcls]
+        rw [this]; rfl
+      | panic s =>
+        have : (!false && vcls (VOut.panic s) != "ok") = true := by simp [vcls]
+        rw [this]; rfl
+    · have : (!true && vcls (validate i) != "ok") = false := by simp
+      rw [this]; exact ih
+
 /-! ## non-vacuity -/
+
+/-- the included project declares a secret with two sources; an override of the including project removed one with
+`!reset`, so the merge result (`exampleTree`) is valid — the load fails all the same; declared in the main file it loads -/
+example : loadWithIncludes {} [twoSources'] Validate.exampleTree exampleProj = .structural .exclusive := by decide
+example : loadWithIncludes {} [] Validate.exampleTree exampleProj = .ok (postState exampleProj) := by decide
+example : loadWithIncludes { skipValidation := true } [twoSources'] Validate.exampleTree exampleProj = .ok (postState exampleProj) := by decide
 
 example : ChecksOn {} := ⟨rfl, rfl⟩
 example : mainChecks {} Validate.exampleTree exampleProj = .ok (postState exampleProj) := by decide
